@@ -324,13 +324,34 @@ def run (ctx):
     ctx.ob('R-AGREE', efp, "lookup scans the sorted table from the front", good, norm(loops[0][0].iter) if loops else "no loop", efp, 'D4')
   if loops:
     st_, h, a = loops[0]
-    rets = [n for n in g.nodes if n.kind == 'return' and n in g.loop_body_nodes(h) or (n.kind == 'return' and any(b.label[0] is st_ for b in g.nodes if b.kind == 'branch' and g.dominates(b, n) and b.label[1] is True))]
-    hit = [n for n in g.nodes if n.kind == 'return' and norm(n.ast.value) == norm(st_.target)]
-    ctx.ob('R-AGREE', efp, "the first matching entry is returned", bool(hit) and any('matches_with_wildcards' in f and f.endswith(':truthy') for f in q.fact_strs(g, hit[0])), "return entry on first match", efp, 'D4')
-    miss = [n for n in g.nodes if n.kind == 'return' and isinstance(n.ast.value, ast.Constant) and n.ast.value.value is None]
-    ctx.ob('R-DOM', efp, "a miss is reported only after the whole table was scanned", bool(miss) and all(g.dominates(a, n) for n in miss), "return None after the loop" if miss else "no miss return", efp, 'D4')
-    brk = [n for n in g.nodes if n.kind == 'break' and any(x is a for x, l in n.succ)]
-    ctx.ob('R-ALL', efp, "the scan is never abandoned early", not brk, "no break", efp, 'D4')
+    # decided by evaluation on a sample table: entries A, B, C in table order, B and C match the frame -> B; none matches -> None
+    def lookup (flags):
+      tbl = [q.Rec(name=nm_, match=q.Rec(res=fl_, name=nm_)) for nm_, fl_ in zip('ABC', flags)]
+      def hook (call, env=None):
+        if call_name(call) == 'matches_with_wildcards' and isinstance(call.func, ast.Attribute):
+          try: rc = q.eval_env2(repo, ftm, call.func.value, env, ft)
+          except Exception: return (False, None)
+          if isinstance(rc, q.Rec) and 'res' in rc: return (True, rc['res'])
+        if call_name(call) == 'from_packet': return (True, q.Rec(name='frame'))
+        return (False, None)
+      hook.wants_env = True
+      out = set()
+      for p_, e_ in q.paths_under(repo, ftm, g, q.Env({'self._table': tbl}, [], hook), g.entry, [n for n in g.nodes if n.kind == 'return'] + [g.exit], ft, limit=80):
+        last = p_[-1]
+        if last.kind != 'return': out.add(None if last is g.exit else '?'); continue
+        if last.ast.value is None: out.add(None); continue
+        try: v_ = q.eval_env2(repo, ftm, last.ast.value, e_, ft)
+        except Exception: v_ = '?'
+        out.add(v_['name'] if isinstance(v_, q.Rec) and 'name' in v_ else (None if v_ is None else '?'))
+      return out
+    r_first, r_none, r_last = lookup((False, True, True)), lookup((False, False, False)), lookup((False, False, True))
+    if '?' in r_first | r_none | r_last or not r_first:
+      ctx.undecided('R-AGREE', efp, "the first matching entry is returned", "lookup not evaluable on the sample table (%s)" % sorted(map(str, r_first | r_none | r_last)), efp, 'D4')
+    else:
+      ctx.ob('R-AGREE', efp, "the first matching entry is returned", r_first == {'B'} and r_last == {'C'}, "table [A,B,C], B and C match -> B; only C matches -> C" if r_first == {'B'} and r_last == {'C'} else
+             "on a table [A, B, C] where B and C match the frame the lookup yields %s (and %s when only C matches): not the first - i.e. highest ranked - matching entry" % (sorted(map(str, r_first)), sorted(map(str, r_last))), efp, 'D4')
+      ctx.ob('R-DOM', efp, "a miss is reported only after the whole table was scanned", r_none == {None}, "no entry matches -> None" if r_none == {None} else "with no matching entry the lookup yields %s" % sorted(map(str, r_none)), efp, 'D4')
+      ctx.ob('R-ALL', efp, "the scan is never abandoned early", r_last == {'C'}, "the last entry is still found", efp, 'D4')
   mc = [c for c in calls_in(efp.node) if call_name(c) == 'matches_with_wildcards']
   if mc:
     c = mc[0]
